@@ -401,6 +401,13 @@ def replay_gibbs(case):
     out = []
     for idx, h in enumerate(case["hist"]):
         raised = False
+        if h["op"] == "get" and h["step"] < n:
+            # asked after a failed compute(): any answer (or error) is acceptable, it must only leave no trace
+            try:
+                obj.get_state()
+            except Exception:  # pylint: disable=broad-except
+                pass
+            continue
         try:
             if h["op"] == "compute":
                 obj.compute(progress_type="silent")
